@@ -47,7 +47,7 @@ def plan(tier, seed):
 def gen_program(rng):
   from vv import gen
   from vv import service as S
-  ops = [{'k': 'create', 'algo': rng.choice(['VVSTUB', 'VVSTUB', 'GRID_SEARCH']),
+  ops = [{'k': 'create', 'algo': rng.choice(['VVSTUB'] * 6 + ['GRID_SEARCH'] * 3 + ['ALGORITHM_NOBODY_REGISTERED']),
           'metrics': rng.choice([[['obj', 'MAXIMIZE']], [['obj', 'MINIMIZE']], [['obj', 'MAXIMIZE'], ['cost', 'MINIMIZE']]])}]
   n = rng.randint(6, 25)
   for _ in range(n):
